@@ -41,6 +41,11 @@ fn path_of(tcx: TyCtxt<'_>, def_id: DefId) -> String {
     with_no_trimmed_paths!(tcx.def_path_str(def_id))
 }
 
+fn dp_of(tcx: TyCtxt<'_>, def_id: DefId) -> String {
+    // crate-qualified definition path, independent of re-exports and of the crate being compiled
+    format!("{}{}", tcx.crate_name(def_id.krate), tcx.def_path(def_id).to_string_no_crate_verbose())
+}
+
 fn ty_str(ty: Ty<'_>) -> String {
     with_no_trimmed_paths!(ty.to_string())
 }
@@ -131,6 +136,7 @@ impl<'tcx> Cx<'tcx> {
             ("args", J::Arr(args.iter().map(|a| s(with_no_trimmed_paths!(a.to_string()))).collect())),
             ("local", J::Bool(def_id.is_local())),
             ("name", s(tcx.item_name(def_id).to_string())),
+            ("dp", s(dp_of(tcx, def_id))),
         ];
         if let Some(tr) = tcx.trait_of_assoc(def_id) {
             v.push(("trait", s(path_of(tcx, tr))));
@@ -159,6 +165,7 @@ impl<'tcx> Cx<'tcx> {
                     };
                     let mut r = vec![("kind", s(kind))];
                     if let Some(d) = rid {
+                        r.push(("dp", s(dp_of(tcx, d))));
                         r.push(("path", s(path_of(tcx, d))));
                         r.push(("local", J::Bool(d.is_local())));
                         if let Some(im) = tcx.impl_of_assoc(d) {
@@ -333,6 +340,9 @@ impl<'tcx> Cx<'tcx> {
         let mut v = Vec::new();
         if !adt.is_empty() {
             v.push(("adt", s(adt)));
+            if let ty::Adt(a, _) = ty.kind() {
+                v.push(("adt_dp", s(dp_of(self.tcx, a.did()))));
+            }
         }
         if let Some(vi) = d.variant {
             v.push(("variant", J::UInt(vi.as_usize() as u128)));
@@ -451,11 +461,11 @@ impl<'tcx> Cx<'tcx> {
             }
             Rvalue::Discriminant(p) => {
                 let pty = p.ty(&body.local_decls, tcx).ty;
-                let adt = match pty.kind() {
-                    ty::Adt(a, _) => adt_name(tcx, *a),
-                    _ => String::new(),
+                let (adt, adt_dp) = match pty.kind() {
+                    ty::Adt(a, _) => (adt_name(tcx, *a), dp_of(tcx, a.did())),
+                    _ => (String::new(), String::new()),
                 };
-                obj(vec![("k", s("discr")), ("pl", self.place(body, p)), ("adt", s(adt))])
+                obj(vec![("k", s("discr")), ("pl", self.place(body, p)), ("adt", s(adt)), ("adt_dp", s(adt_dp))])
             }
             Rvalue::Aggregate(ak, ops) => {
                 let akj = match &**ak {
@@ -467,6 +477,7 @@ impl<'tcx> Cx<'tcx> {
                         let mut v = vec![
                             ("t", s("adt")),
                             ("adt", s(path_of(tcx, *did))),
+                            ("adt_dp", s(dp_of(tcx, *did))),
                             ("v", J::UInt(vi.as_usize() as u128)),
                             ("vn", s(var.name.to_string())),
                             ("kind", s(if adt.is_enum() { "enum" } else if adt.is_union() { "union" } else { "struct" })),
@@ -485,7 +496,7 @@ impl<'tcx> Cx<'tcx> {
                         obj(v)
                     }
                     AggregateKind::Closure(did, _) => {
-                        obj(vec![("t", s("closure")), ("closure", s(path_of(tcx, *did)))])
+                        obj(vec![("t", s("closure")), ("closure", s(path_of(tcx, *did))), ("dp", s(dp_of(tcx, *did)))])
                     }
                     other => obj(vec![("t", s("other")), ("text", s(format!("{:?}", other)))]),
                 };
@@ -683,6 +694,7 @@ impl Callbacks for Exporter {
             let cx = Cx { tcx, typing_env: TypingEnv::post_analysis(tcx, def_id) };
             let mut v = vec![
                 ("kind", s(kind_s)),
+                ("dp", s(dp_of(tcx, def_id))),
                 ("def_kind", s(format!("{:?}", tcx.def_kind(def_id)))),
                 ("span", span_json(tcx, tcx.def_span(def_id))),
                 ("ret_ty", s(ty_str(body.local_decls[mir::RETURN_PLACE].ty))),
@@ -746,6 +758,7 @@ impl Callbacks for Exporter {
                         path_of(tcx, def_id),
                         obj(vec![
                             ("kind", s(if adt.is_enum() { "enum" } else if adt.is_union() { "union" } else { "struct" })),
+                            ("dp", s(dp_of(tcx, def_id))),
                             ("variants", J::Arr(vars)),
                             ("span", span_json(tcx, tcx.def_span(def_id))),
                         ]),
